@@ -31,9 +31,10 @@ GROUP_WHAT = {
     "C02-rm-ignored": "concrete folding ignores the rounding mode (Python float arithmetic is RNE): every inexact "
                       "add/sub/mul/div/sqrt/fp->fp/int->fp under RNA/RTZ/RTP/RTN folds to the RNE result "
                       "(backend_concrete/fp.py fpAdd.. take _rm and drop it)",
-    "C02-div-specials": "FPV.__truediv__: x/0 handler returns +-inf for 0/0 and NaN/0 (should be NaN)",
-    "C02-rna-toint": "fpToSBV/fpToUBV: RM_NearestTiesAwayFromZero mapped to decimal.ROUND_UP (rounds every fraction "
-                     "away from zero, e.g. 1.2 -> 2) instead of ROUND_HALF_UP",
+    "C02-div-specials": "FPV.__truediv__: the x/0 handler takes the sign of the result from str(x * 0), which is 'nan' for "
+                        "x = +-inf: -inf/+0.0 and +inf/-0.0 fold to +inf (IEEE: -inf).  (0/0 and NaN/0 -> +inf were "
+                        "fixed in /repo c630e29.)",
+    "C02-rna-toint": "fpToSBV/fpToUBV under RM_NearestTiesAwayFromZero (mode map fixed in /repo; listed for completeness)",
     "C02-int2fp-double-rounding": "int -> float32 conversion goes through a Python double and is rounded twice "
                                   "(e.g. 2^60+2^36+1 -> 2^60 instead of 2^60+2^37)",
     "C02-toubv-raises": "fpToUBV raises AssertionError for negative / too large rounded values instead of returning a value",
@@ -74,7 +75,7 @@ def group_of(ev, clause):
 
 
 def ev_is_div_special(ev):
-    """0/0 or NaN/0 (labelling of a known finding only; membership is by exact signature)"""
+    """0/0, NaN/0 or inf/0 (labelling of a known finding only; membership is by exact signature)"""
     if ev["iop"]:
         return False
     fm = {11: "d", 8: "f"}[ev["eb"]]
@@ -82,7 +83,8 @@ def ev_is_div_special(ev):
     w = ev["eb"] + ev["sb"]
     bzero = b & ((1 << (w - 1)) - 1) == 0
     azero = a & ((1 << (w - 1)) - 1) == 0
-    return bzero and (azero or W.is_nan_pattern(a, fm))
+    ainf = a & ((1 << (w - 1)) - 1) == ((1 << ev["eb"]) - 1) << (ev["sb"] - 1)
+    return bzero and (azero or ainf or W.is_nan_pattern(a, fm))
 
 
 def signature(ev, clause):
@@ -109,7 +111,7 @@ def jobs_for(tier, seed, mode="claripy"):
         for k in range(np_):
             J.append({**base, "fmt": fmt, "group": "cmp", "pool": "small" if q else pool, "part": k, "nparts": np_,
                       "solved": 3 if q else 1})
-        for grp in ("unary", "toint", "fptofp", "inttofp", "bits"):
+        for grp in ("unary", "toint", "fptofp", "inttofp", "bits", "cancel"):
             J.append({**base, "fmt": fmt, "group": grp, "pool": pool})
             if q and grp == "inttofp":
                 # BV-variable expressions through claripy.Solver().add(x == c) are answered from the model cache by
